@@ -204,13 +204,37 @@ def run_impl(spec_path, hist_path, trace_path, timeout=120, release=False, threa
     return 'abort'
 
 
+def _big_stack():
+    # the extracted list functions are not tail recursive; buffers of a million cells need a deep stack
+    import resource
+    try:
+        resource.setrlimit(resource.RLIMIT_STACK, (resource.RLIM_INFINITY, resource.RLIM_INFINITY))
+    except (ValueError, OSError):
+        try:
+            soft, hard = resource.getrlimit(resource.RLIMIT_STACK)
+            resource.setrlimit(resource.RLIMIT_STACK, (hard, hard))
+        except (ValueError, OSError):
+            pass
+
+
 def run_model(hist_path, trace_path, timeout=600):
+    """'ok' | 'fail' | 'timeout'.  'timeout' also stands for the other resource limits of this machinery (the OCaml
+    run-time reporting Stack_overflow or Out_of_memory): the run says nothing about the code, only its prefix is compared."""
     with open(trace_path, 'w') as out, open(trace_path + '.err', 'w') as err:
         try:
-            p = subprocess.run([os.path.join(OCAML_BUILD, 'driver'), hist_path], stdout=out, stderr=err, timeout=timeout)
-            return 'ok' if p.returncode == 0 else 'fail'
+            p = subprocess.run([os.path.join(OCAML_BUILD, 'driver'), hist_path], stdout=out, stderr=err, timeout=timeout,
+                               preexec_fn=_big_stack)
         except subprocess.TimeoutExpired:
             return 'timeout'
+    if p.returncode == 0:
+        return 'ok'
+    try:
+        tail = open(trace_path + '.err').read()[-2000:]
+    except OSError:
+        tail = ''
+    if 'Stack_overflow' in tail or 'Out_of_memory' in tail or p.returncode in (-9, -11, 137, 139):
+        return 'timeout'
+    return 'fail'
 
 
 def truncate_after_fatal(lines):
@@ -223,15 +247,22 @@ def truncate_after_fatal(lines):
     return out
 
 
-def compare_traces(impl_path, model_path):
+def compare_traces(impl_path, model_path, model_incomplete=False):
+    """first differing line of the two traces, or None.  With model_incomplete (the model run was stopped by the time limit
+    of this machinery) only the complete lines the model did produce are compared."""
     a = truncate_after_fatal([l.rstrip('\n') for l in open(impl_path)])
-    b = truncate_after_fatal([l.rstrip('\n') for l in open(model_path)])
+    raw = open(model_path).read()
+    if model_incomplete and not raw.endswith('\n'):
+        raw = raw[:raw.rfind('\n') + 1]           # drop the line that was being written
+    b = truncate_after_fatal([] if raw == '' else (raw.split('\n')[:-1] if raw.endswith('\n') else raw.split('\n')))
     # allocation-count lines exist on the implementation side only
     a = [l for l in a if not (l.startswith('A ') or l.startswith('AG ') or l.startswith('MI ') or l.startswith('THREADS '))]
     b = [l for l in b if not l.startswith('MI ')]
     for i, (x, y) in enumerate(zip(a, b)):
         if x != y:
             return {'line': i, 'impl': x[:300], 'model': y[:300]}
+    if model_incomplete and len(b) <= len(a):
+        return None
     if len(a) != len(b):
         i = min(len(a), len(b))
         return {'line': i, 'impl': (a[i][:300] if i < len(a) else '<end>'), 'model': (b[i][:300] if i < len(b) else '<end>')}
@@ -247,6 +278,7 @@ class Case:
         self.meta = meta or {}
         self.status = None
         self.diff = None
+        self.model_timeout = False
 
 
 def run_cases(cases, outdir, with_model=True, release=False, timeout=120):
@@ -261,9 +293,15 @@ def run_cases(cases, outdir, with_model=True, release=False, timeout=120):
                             threads=c.meta.get('threads'), migrate=c.meta.get('migrate', False))
         if with_model and not c.meta.get('no_model'):
             c.model_status = run_model(c.hist_path, c.model_path)
-            c.diff = compare_traces(c.impl_path, c.model_path)
-            if c.model_status != 'ok' and c.diff is None:
-                c.diff = {'line': -1, 'impl': '', 'model': 'model driver: ' + c.model_status}
+            if c.model_status == 'timeout':
+                # the extracted model (software floating point) ran out of this machinery's time limit: not a disagreement.
+                # The part of the trace it did produce is still compared; the history counts as not validated.
+                c.diff = compare_traces(c.impl_path, c.model_path, model_incomplete=True)
+                c.model_timeout = True
+            else:
+                c.diff = compare_traces(c.impl_path, c.model_path)
+                if c.model_status != 'ok' and c.diff is None:
+                    c.diff = {'line': -1, 'impl': '', 'model': 'model driver: ' + c.model_status}
         return c
 
     with ThreadPoolExecutor(max_workers=NCPU) as ex:
